@@ -67,12 +67,16 @@ def scaled_mean_err(m, m_ref, P_ref_diag, floor=0.0):
     return float(np.max(np.abs(m - m_ref) / den)) if m.size else 0.0
 
 
-def scaled_cov_err(P, P_ref, floor=0.0):
-    """max_ij |dP_ij| / (sqrt(P_ii P_jj) + floor)."""
+def scaled_cov_err(P, P_ref, floor=0.0, std_floor_rel=0.0):
+    """max_ij |dP_ij| / (sqrt(P_ii P_jj) + floor). ``std_floor_rel`` lifts standard deviations that are pure
+    rounding noise (exactly observed coefficients) to that fraction of the largest one: needed when *both*
+    sides are float64 results."""
     P, P_ref = np.asarray(P, float), np.asarray(P_ref, float)
     if not np.all(np.isfinite(P)):
         return float("inf")
     d = np.sqrt(np.maximum(np.diag(P_ref), 0.0))
+    if std_floor_rel and d.size:
+        d = np.maximum(d, std_floor_rel * float(np.max(d)))
     den = np.outer(d, d) + floor
     den = np.where(den == 0.0, 1.0, den)
     return float(np.max(np.abs(P - P_ref) / den)) if P.size else 0.0
